@@ -322,10 +322,10 @@ theorem scalar_conv (t : Ty) (o : FieldOpt) (w : WireVal) (p : Bytes) (cur cur' 
     (m' : Nat) (ht : tyOK t = true) (hs : isStructTy t = false) (hnp : isPtr t = false) (hns : isSlice t = false)
     (ho : optOK t o = true) (hfl : fl.zigzag = o.zigzag) (hp : Pay w p)
     (hw : wireNum w = (codecFor t o).wire.num)
-    (h : decode f (codecFor t o) p cur' fl = .ok (v, m')) :
+    (h : decodeU f (codecFor t o) p cur' fl = .ok (v, m')) :
     ∃ v0, decodeOne (F + 1) t o w cur = some v0 := by
   cases f with
-  | zero => simp [decode] at h
+  | zero => simp [decodeU] at h
   | succ f =>
   cases t <;> simp only [tyOK] at ht <;> try (exact absurd ht (by decide))
   case struct => exact absurd hs (by simp [isStructTy])
@@ -383,7 +383,7 @@ theorem scalar_conv (t : Ty) (o : FieldOpt) (w : WireVal) (p : Bytes) (cur cur' 
         have hv : (if fl.zigzag = true then (decodeZigZag64 (BitVec.ofNat 64 n)).toInt else (BitVec.ofNat 64 n).toInt)
             = (if o.zigzag = true then unzigzag n else toInt64 n) := by
           rw [hfl]; split <;> simp only [unzigzag_ofNat n hp.lt, toInt_ofNat n hp.lt]
-        simp only [codecFor, hf', Bool.false_eq_true, if_false, decode, vtok_dec hp, Flags.i64, hv] at h
+        simp only [codecFor, hf', Bool.false_eq_true, if_false, decodeU, vtok_dec hp, Flags.i64, hv] at h
         by_cases hr : (if o.zigzag = true then unzigzag n else toInt64 n) < -2147483648
             ∨ (if o.zigzag = true then unzigzag n else toInt64 n) > 2147483647
         · rw [if_pos hr] at h; simp at h
@@ -419,7 +419,7 @@ theorem scalar_conv (t : Ty) (o : FieldOpt) (w : WireVal) (p : Bytes) (cur cur' 
           try (exact absurd hw (by decide))
         rename_i n
         simp only [Pay] at hp
-        simp only [codecFor, hf', Bool.false_eq_true, if_false, decode, vtok_dec hp, Res.bind,
+        simp only [codecFor, hf', Bool.false_eq_true, if_false, decodeU, vtok_dec hp, Res.bind,
           ofNat64_toNat n hp.lt] at h
         split at h
         · simp at h
